@@ -457,6 +457,10 @@ class NdArr:
     def nbytes(self):
         return self.size * self.dtype.itemsize
 
+    @property
+    def itemsize(self):
+        return self.dtype.itemsize
+
     def __len__(self):
         if not self.shape:
             raise RaiseSignal('TypeError', None, 'len() of unsized object')
